@@ -95,6 +95,7 @@ type hist struct {
 	votes     []voteRec
 	restarts  int
 	desc      []string
+	ffg       *ffgModel
 }
 
 func newHist(c evCase) (*hist, error) {
@@ -103,7 +104,7 @@ func newHist(c evCase) (*hist, error) {
 	if err != nil {
 		return nil, fmt.Errorf("HARNESS: cannot start node: %v", err)
 	}
-	h := &hist{w: w, n: n, delivered: map[int]bool{0: true}}
+	h := &hist{w: w, n: n, delivered: map[int]bool{0: true}, ffg: newFFG(w)}
 	for i := 1; i < len(w.Blocks); i++ {
 		h.remaining = append(h.remaining, i)
 	}
@@ -143,6 +144,9 @@ func (h *hist) step(e ev) (string, error) {
 			return "", hangError(fmt.Sprintf("ProcessBlock(block #%d)", i), dump)
 		}
 		h.delivered[i] = true
+		if derr == nil {
+			h.ffg.observeHeader(i, h.w.Blocks[i].Block)
+		}
 		return fmt.Sprintf("block #%d (h=%d, parent #%d) -> %v", i, h.w.Blocks[i].Block.Height, h.w.Blocks[i].Parent, derr), nil
 	case "v":
 		cps := h.knownCheckpoints()
@@ -180,6 +184,7 @@ func (h *hist) step(e ev) (string, error) {
 				return "", hangError(fmt.Sprintf("ProcessBlockVerification(validator slot %d, link #%d->#%d)", slot, src, tgt), dump)
 			}
 			h.votes = append(h.votes, voteRec{Key: key, Slot: slot, Source: src, Target: tgt, Flavor: e.D, Err: verr})
+			h.ffg.observe(msg.PubKey, src, tgt, msg.Signature)
 			d += fmt.Sprintf(" %d:%v", slot, verr)
 		}
 		if e.D != 0 {
